@@ -75,3 +75,38 @@ Proof. exact (lossless_checked _ _ _ grammar_chk_all grammar_chk_eof). Qed.
 
 Theorem grammar_terminates : forall txt, exists fuel, parse_with fuel grammar_prog grammar_entry txt <> ParseOOF.
 Proof. exact (parse_terminates _ _ _ grammar_chk_all). Qed.
+
+(** * C02 (iv): errors of the regenerated grammar *)
+From TG.Proofs Require Import ParserMsgs.
+From Coq Require Import String.
+
+Lemma grammar_msgs_ok : prog_msgs_ok grammar_prog = true.
+Proof. vm_compute. reflexivity. Qed.
+
+Definition error_wf (txt : text) (e : N * N * parse_msg) : Prop :=
+  let '(lo, hi, m) := e in
+  msg_text m <> EmptyString /\ (lo <= hi)%N /\ (hi <= bytes txt)%N /\ on_char_boundary txt lo /\ on_char_boundary txt hi.
+
+Theorem errors_wf_checked (p : prog) (entry : nat) : prog_msgs_ok p = true ->
+  forall fuel txt t errs st, parse_with fuel p entry txt = ParseOk t errs st -> Forall (error_wf txt) errs.
+Proof.
+  intros PM fuel txt t errs st H.
+  pose proof (parse_msgs_nonempty p entry PM _ _ _ _ _ H) as M.
+  pose proof (error_ranges_any_program _ _ _ _ _ _ _ H) as R.
+  rewrite Forall_forall in *. intros [[lo hi] m] IN. specialize (M _ IN). specialize (R _ IN). cbn in M, R. cbn. tauto.
+Qed.
+
+Theorem grammar_errors_wf : forall fuel txt t errs st,
+  parse_with fuel grammar_prog grammar_entry txt = ParseOk t errs st -> Forall (error_wf txt) errs.
+Proof. exact (errors_wf_checked _ _ grammar_msgs_ok). Qed.
+
+(** the token stream never panics in a reachable state: no `expect("error token without message")`, the
+    fuel of the trivia loop never runs out *)
+Theorem stream_total txt s : Tile txt s ->
+  (exists s', p_eat s = Some s') /\ (exists s', p_skip_all s = Some s') /\ (forall k m, exists s', p_expect s k m = Some s').
+Proof.
+  intros T. split; [|split].
+  - destruct (p_eat_tile txt s T) as (s' & E & _). eauto.
+  - destruct (p_skip_all_tile txt s T) as (s' & E & _). eauto.
+  - intros k m. destruct (p_expect_tile txt s k m T) as (s' & E & _). eauto.
+Qed.
